@@ -52,3 +52,33 @@ a = "<!-- SEEDS-BEGIN -->"; b = "<!-- SEEDS-END -->"
 if a in s:
     s = s[:s.index(a)] + a + "\n" + txt + "\n" + b + s[s.index(b) + len(b):]
     open(p, 'w').write(s)
+
+# behaviour-preserving changes (between HARMLESS-BEGIN/END), from harmless/*/meta.json
+hd = os.path.join(ROOT, 'harmless')
+if os.path.isdir(hd):
+    tot = quiet = 0
+    alarms = []
+    pending = []
+    for d in sorted(os.listdir(hd)):
+        mp = os.path.join(hd, d, 'meta.json')
+        if not os.path.isfile(mp):
+            continue
+        m = json.load(open(mp))
+        r = m.get('result') or {}
+        tot += 1
+        if not r:
+            pending.append(d)
+            continue
+        al = sorted(k for k, v in r.items() if v != 'quiet')
+        if al:
+            alarms.append(f"{d} ({', '.join(al)})")
+        else:
+            quiet += 1
+    txt = (f"Current totals (generated from `harmless/*/meta.json`): **{tot}** behaviour-preserving changes; **{quiet}** leave all the quick "
+           f"checks they were run against quiet; alarms raised: {'; '.join(alarms) if alarms else 'none'}"
+           + (f"; not yet run: {', '.join(pending)}" if pending else "") + ".")
+    s = open(p).read()
+    a = "<!-- HARMLESS-BEGIN -->"; b = "<!-- HARMLESS-END -->"
+    if a in s:
+        s = s[:s.index(a)] + a + "\n" + txt + "\n" + b + s[s.index(b) + len(b):]
+        open(p, 'w').write(s)
